@@ -175,7 +175,28 @@ func runC11Bulk(c *Ctx) {
 	} else {
 		c.Errorf("anchor rtree.BulkLoad does not resolve")
 	}
-	if bn := c.P.Func("rtree.bulkNode"); bn != nil {
+	// the function that builds intermediate nodes: bulkNode, or the one it was inlined into (the function of
+	// the bulk loader that stores an entry's box)
+	bn := c.P.Func("rtree.bulkNode")
+	if bn == nil {
+		for _, g := range c.P.Funcs {
+			if pkgOf(g) != "rtree" || !strings.Contains(c.P.File(g.Pos()), "bulk.go") {
+				continue
+			}
+			eachInstr(g, func(in ssa.Instruction) {
+				if st, ok := in.(*ssa.Store); ok {
+					if fa, ok := st.Addr.(*ssa.FieldAddr); ok {
+						if sn, fl := fieldOfAddr(fa); sn == "entry" && fl == "box" {
+							if call, isCall := st.Val.(*ssa.Call); isCall && calleeName(call) == "rtree.calculateBound" {
+								bn = g
+							}
+						}
+					}
+				}
+			})
+		}
+	}
+	if bn != nil {
 		// the box stored for a child is calculateBound(that child)
 		ok := false
 		eachInstr(bn, func(in ssa.Instruction) {
